@@ -48,6 +48,18 @@ CHECKS['C12'] = dict(
     design='§5 C12',
     note=COMMON_NOTE + 'Calls named in PURE_CALLS of the translator are assumed effect-free. The can_simulate=False bypass is part of the statement.')
 
+CHECKS['C05'] = dict(
+    technique='Lean 4 proof (diff/hint/simulate algebra) + differential correspondence',
+    text=('Lean model of diff() at four levels, __eq__, Diff.evolution() and simulate(); proved for every signature '
+          'with unique keys: empty difference with itself/its clone (C05_self); closure of attribute changes — for any '
+          'two versions of a field with the same type and relation the hinted ChangeField leaves no difference in '
+          'either direction (C05_closure_changeField, every attribute alone or in combination); closure of added '
+          'fields (C05_closure_addField); proved counterexamples for re-targeted relations (F5) and == vs diff() (F6). '
+          '_ATTRIBUTE_DEFAULTS is extracted from source; diff dictionaries, hinted mutations and the residual diff '
+          'after simulation are compared with the real code on generated signature pairs.'),
+    design='§5 C05',
+    note=COMMON_NOTE + 'The initial value carried by a hint is opaque (placeholder); field.get_internal_type()/db_type tables are hand-written for the property field space and validated by correspondence.')
+
 NOT_YET = {}
 
 
